@@ -87,12 +87,30 @@ def cases_from_pairs(pairs, rng, src):
         try:
             with warnings.catch_warnings():
                 warnings.simplefilter('ignore')
+                terms.clear_typing_caches()
                 b = terms.build(term, rng)
                 terms.verify(term, b.py)
             out.append(convcases.Case(term, b, value, src))
         except terms.Unsupported:
             pass
     return out
+
+
+def cold_observe(c):
+    """the same conversion with an empty converter cache (the history is put back afterwards)"""
+    from pane.convert import make_converter
+    cache = getattr(make_converter, 'cache', None)
+    if not isinstance(cache, dict):
+        return None
+    saved = dict(cache)
+    cache.clear()
+    try:
+        c2 = convcases.Case(c.term, c.built, c.value, 'cold')
+        convcases.observe(c2)
+    finally:
+        cache.clear()
+        cache.update(saved)
+    return c2
 
 
 def run(ctx, out, prop, monitor, cfg=None, corr_label='corr_convert', extra_cases=None, sizes=None, focus=None, twins=False):
@@ -113,15 +131,16 @@ def run(ctx, out, prop, monitor, cfg=None, corr_label='corr_convert', extra_case
     if extra_cases:
         cases += extra_cases(rng)
     if twins:
-        for term, value in gen.twin_union_cases(rng):
+        # every twin under the typing spelling, the builtin / PEP 604 spelling (fresh, ==-equal alias objects) and a random one
+        pairs = gen.twin_union_cases(rng)
+        # (typing.List[...] and friends are interned by typing itself *by equality*, so two orders of one union under the typing
+        # spelling are one object: only the builtin spelling gives two distinct equal objects)
+        for mode in ('builtin', None):
+            terms.FORCE_SPELL = mode
             try:
-                with warnings.catch_warnings():
-                    warnings.simplefilter('ignore')
-                    b = terms.build(term, rng)
-                    terms.verify(term, b.py)
-                cases.append(convcases.Case(term, b, value, 'twin'))
-            except terms.Unsupported:
-                pass
+                cases += cases_from_pairs(pairs, rng, 'twin')
+            finally:
+                terms.FORCE_SPELL = None
     cases += convcases.make_cases(rng, n_types, per_type, depth, cfg)
     failing = []
     for c in cases:
@@ -132,6 +151,12 @@ def run(ctx, out, prop, monitor, cfg=None, corr_label='corr_convert', extra_case
         except Exception:
             key = (repr(c.value), c.built.coq)
         out.case(hash(key), nontrivial)
+        if c.stream == 'twin' and c.fd_obs is not None:
+            c2 = cold_observe(c)
+            if c2 is not None and (convcases.obs_repr(c2.fd_obs), convcases.obs_repr(c2.try_obs)) != (convcases.obs_repr(c.fd_obs), convcases.obs_repr(c.try_obs)):
+                out.violation(f'{prop}:depends-on-call-history', f'from_data({c.value!r}, {c.built.py!r}) gives {convcases.obs_repr(c.fd_obs)} after the earlier '
+                              f'conversions of this run and {convcases.obs_repr(c2.fd_obs)} with an empty converter cache: an equal-but-reordered type seen '
+                              'earlier decides the result', dict(c.describe(), cold=convcases.obs_repr(c2.fd_obs)))
         for sig, what, extra in monitor(c) or []:
             failing.append(c)
             rep = c.describe()
